@@ -562,6 +562,41 @@ impl<'a> Sim<'a> {
                 return None;
             }
         }
+        // "over a given event store", whatever it holds: with one event missing from the store (a lost
+        // write) the outcome - a state map or an error - is still the same under every argument order,
+        // and it is never a panic. (What the right state map is with events missing is not the
+        // specification's business, so there is no model comparison here.)
+        if self.t.chance(1, 6) {
+            let mut cands: BTreeSet<String> = BTreeSet::new();
+            for s in &plain {
+                cands.extend(s.values().cloned());
+            }
+            for c in &chains {
+                cands.extend(c.iter().cloned());
+            }
+            let cands: Vec<String> = cands.into_iter().filter(|id| store.get(id).is_some_and(|p| p.ty != ruma_events::TimelineEventType::RoomCreate)).collect();
+            if !cands.is_empty() {
+                let gone = self.t.pick(&cands).clone();
+                let hfetch = |id: &str| if id == gone { None } else { store.get(id).cloned() };
+                let a = real::resolve(&self.rules.authorization, &plain, &chains, &ident, &ident, &hfetch, &|| {});
+                let mut order = ident.clone();
+                let mut corder = ident.clone();
+                self.t.shuffle(&mut order);
+                self.t.shuffle(&mut corder);
+                let b = real::resolve(&self.rules.authorization, &plain, &chains, &order, &corder, &hfetch, &|| {});
+                self.bump("agree.missing-event-resolutions");
+                self.bump("fault.store.event-missing-at-resolution");
+                let what = if a.panic().is_some() || b.panic().is_some() { Some("panic") } else if a != b { Some("permutation") } else { None };
+                if let Some(what) = what {
+                    self.violate(
+                        "C06",
+                        format!("agree/resolve.missing-event.{what}"),
+                        json!({"oracle":"equality","site":site,"missing_event":gone,"state_set_order":order,"auth_chain_order":corder,"first":outcome_json(&a),"again":outcome_json(&b),"sets":sets_json(&plain)}),
+                    );
+                    return None;
+                }
+            }
+        }
         // identity clauses
         if self.t.chance(1, 4) {
             let s = plain[self.t.index(plain.len())].clone();
